@@ -65,6 +65,38 @@ def run(ctx, b, broken):
             x = ctx.rng.choice(inj)
             ctx.count("mutation:injection")
             must_reject(" ".join(sp[:i] + [x] + sp[i:]), f"non-token text {x!r} was injected", True)
+        # the same, glued to a neighbouring token (no blank in between) or put inside an identifier / keyword / number
+        glue = ["@", "`", "\\", "\\u", "\\U", "\\x", "'", "??/", "\\\n"]
+        cand = [i for i, s_ in enumerate(sp) if s_ and s_[0] not in "'\"#" and not (s_[0] in "LuU" and ("'" in s_ or '"' in s_))]
+        for _ in range(6):
+            if not cand:
+                break
+            i = ctx.rng.choice(cand)
+            x = ctx.rng.choice(glue)
+            tokx = sp[i]
+            k = ctx.rng.randint(0, 2)
+            if k == 0:
+                mut = x + tokx
+            elif k == 1:
+                mut = tokx + x
+            else:
+                j = ctx.rng.randrange(len(tokx) + 1)
+                mut = tokx[:j] + x + tokx[j:]
+            # a quote in front of / inside a token may pair up with nothing: still not a token sequence of the original grammar;
+            # only `'` glued so that it forms a valid character constant would be legitimate - it cannot, the rest of the line has no closing quote
+            if x == "'" and "'" in " ".join(sp[i + 1:]).split("\n")[0]:
+                continue
+            ctx.count("mutation:glued-injection")
+            must_reject(" ".join(sp[:i] + [mut] + sp[i + 1:]), f"non-token text {x!r} was glued to / put inside token {i} ({tokx})", True)
+        # junk after a line directive / linemarker (the directive line is outside literals and pragma text)
+        text, _pos = cgen.layout(toks, ctx.rng, "random")
+        lines = text.split("\n")
+        dl = [i for i, l in enumerate(lines) if re.match(r"\s*#\s*(line\s+)?\d", l)]
+        if dl and impl_parse(text).startswith("OK"):
+            i = ctx.rng.choice(dl)
+            junk = ctx.rng.choice([" @", " `", " \\", " /* c */", " x", " ]] }", " 3 4 @", " \"a\" \"b\"", " 1 2 x", " ;"])
+            ctx.count("mutation:directive-junk")
+            must_reject("\n".join(lines[:i] + [lines[i] + junk] + lines[i + 1:]), f"junk {junk!r} follows a line directive", True)
     L = 4 if ctx.tier == "quick" else 6
     ctxs = [("int v = 1 ", " ;", "expression"), ("void f(void){ x ", " ; }", "statement"), ("int d ", " ;", "declarator")]
     for n in range(1, L + 1):
